@@ -118,10 +118,10 @@ def r2(ctx, prog):
                 whole.append((bb, r, at))
             else:
                 single.append((bb, r, at))
-        ok = len(whole) == 1 and whole[0][1][0] == "state" and whole[0][1][1] == "contract_addr" and whole[0][2] == ["is:None(std::collections::HashMap::get(*post.state, contract_addr))"]
+        ok = len(whole) == 1 and whole[0][1][0] == "state" and whole[0][1][1] == "contract_addr" and whole[0][2] == ["is:None(std::collections::HashMap::get(post.state, contract_addr))"]
         ctx.ob("R2", "overlay:no-mutation-for-contract->whole-request-to-pre-state", ok, h.loc(whole[0][0]) if whole else h.loc(0),
                "whole-request delegations: %s" % [(r, a) for _, r, a in whole], h)
-        ok = len(single) == 1 and single[0][1][0] == "state" and single[0][1][3] == "1" and any(a.startswith("is:None(std::collections::HashMap::get((std::collections::HashMap::get(*post.state, contract_addr) as Some).0") for a in single[0][2])
+        ok = len(single) == 1 and single[0][1][0] == "state" and single[0][1][3] == "1" and any(a.startswith("is:None(std::collections::HashMap::get((std::collections::HashMap::get(post.state, contract_addr) as Some).0") for a in single[0][2])
         ctx.ob("R2", "overlay:unmutated-key->single-read-from-pre-state", ok, h.loc(single[0][0]) if single else h.loc(0), "single reads: %s" % [(r, a) for _, r, a in single], h)
         gets = [(bb, t) for bb, t in h.calls() if M.callee_of(t) == "std::collections::HashMap::get"]
         ctx.ob("R2", "overlay:looks-up-(contract,key)", len(gets) == 2, h.loc(0), "%d map lookups" % len(gets), h)
